@@ -22,7 +22,8 @@ var tokens = append(append([]string{}, gen.TokWidth...), "\"", ",", "<", "&")
 func caseGen() *rapid.Generator[Case] {
 	return rapid.Custom(func(t *rapid.T) Case {
 		c := Case{Item: gen.AnyItem(tokens, 3).Draw(t, "item")}
-		if Mutable(c.Item) && rapid.IntRange(0, 3).Draw(t, "mutate") > 0 {
+		nestedMutable := (c.Item.K == "cell" || c.Item.K == "pcell") && c.Item.In != nil && Mutable(*c.Item.In)
+		if (Mutable(c.Item) || nestedMutable) && rapid.IntRange(0, 3).Draw(t, "mutate") > 0 {
 			s := func(l string) gen.Str { return gen.Str(gen.StringOf(tokens, 0, 2).Draw(t, l)) }
 			c.Mut = &Mut{S: s("ms"), G: s("mg"), E: s("me"), N: int64(rapid.IntRange(-5, 5).Draw(t, "mn"))}
 		}
